@@ -169,11 +169,19 @@ def generate(c: Contract) -> Generated:
                         goal = ex.spec_bool(entry, ens_src, env)
                         ex.oblige(stj, "relational", lab, goal, None, f"{req_src}  ==>  {ens_src}")
         g.obls = pre_obls + ex.obls
+        for key in c.cuts:
+            if key not in getattr(ex, "cuts_seen", set()):
+                g.undecided.append(f"cut `{key}` matches no statement (contract no longer matches the code)")
         from . import calendar as _cal
         cal_ax = _cal.axioms(ex)
         if cal_ax:
             for o in g.obls:
                 o.hyps = o.hyps + cal_ax
+        from . import strings as _str
+        str_ax = _str.axioms(ex)
+        if str_ax:
+            for o in g.obls:
+                o.hyps = o.hyps + str_ax
         for o in g.obls:
             o.hyps = o.hyps + alloc_axioms(o.hyps + [o.goal], ex.known_refs, with_alloc=bool(ex.fresh_objs))
     except Unsupported as e:
